@@ -6,6 +6,8 @@
   plain (`compactKey`) or compare-and-delete (`compactCurrent`) — may succeed, fail, or fail with an
   error of the failed-condition class (`storage.ErrCASFailed`; the TiKV adapter reports a write
   conflict that way, for a plain delete too).
+  This file: the pass WITHOUT a timeout revision (`workerActs` is the whole loop then: `KB.passRun_expiry_off`).
+  The pass with the ttl pass riding on it (engine without native ttl, `timeoutRevision ≠ 0`): `KB.Props.C07Expire`.
 -/
 import KB.Lemmas.Compact
 namespace KB.C07
